@@ -14,6 +14,12 @@ use std::sync::atomic::{AtomicU8, AtomicU64, AtomicUsize, Ordering};
 pub const NSLOT: usize = 64;
 const IDLE: u64 = u64::MAX;
 static SLOT_IDX: [AtomicU64; NSLOT] = [const { AtomicU64::new(IDLE) }; NSLOT];
+static SLOT_TID: [AtomicU64; NSLOT] = [const { AtomicU64::new(0) }; NSLOT];
+/// CPU seconds one case may burn on its worker thread before it is declared stuck (0 = watcher off)
+static CPU_LIMIT_S: AtomicU64 = AtomicU64::new(0);
+/// longest case seen so far, in CPU centiseconds (2 s granularity)
+static LONGEST_CS: AtomicU64 = AtomicU64::new(0);
+pub const EXIT_STUCK: i32 = 97;
 static SUB_NAME: [AtomicU8; 96] = [const { AtomicU8::new(0) }; 96];
 static SUB_LEN: AtomicUsize = AtomicUsize::new(0);
 
@@ -33,6 +39,109 @@ pub fn set_sub(name: &str) {
 
 pub fn claim_slot(slot: usize) {
     MY_SLOT.with(|s| s.set(slot % NSLOT));
+    #[cfg(not(miri))]
+    SLOT_TID[slot % NSLOT].store(unsafe { libc::syscall(libc::SYS_gettid) } as u64, Ordering::Relaxed);
+}
+
+pub fn current_sub() -> String {
+    let n = SUB_LEN.load(Ordering::SeqCst);
+    (0..n).map(|i| SUB_NAME[i].load(Ordering::Relaxed) as char).collect()
+}
+
+pub fn longest_case_cpu_s() -> f64 {
+    LONGEST_CS.load(Ordering::Relaxed) as f64 / 100.0
+}
+
+/// CPU time (user + system, centiseconds) of one thread of this process, from /proc (None if it is gone).
+#[cfg(not(miri))]
+fn thread_cpu_cs(tid: u64) -> Option<u64> {
+    let t = std::fs::read_to_string(format!("/proc/self/task/{}/stat", tid)).ok()?;
+    let rest = &t[t.rfind(')')? + 1..];
+    let f: Vec<&str> = rest.split_whitespace().collect();
+    // after the command name: state is field 3, utime 14, stime 15 (1-based) -> indices 11, 12 here
+    let ut: u64 = f.get(11)?.parse().ok()?;
+    let st: u64 = f.get(12)?.parse().ok()?;
+    let hz = unsafe { libc::sysconf(libc::_SC_CLK_TCK) }.max(1) as u64;
+    Some((ut + st) * 100 / hz)
+}
+
+/// Start the stuck-case watcher: a case that has burnt more than `cpu_limit_s` seconds of CPU time on its own
+/// worker thread (a logical measure: it does not depend on how loaded the machine is) is named on stderr and
+/// the process exits with EXIT_STUCK; the supervising parent then replays that case alone. A case that is in
+/// flight for `wall_limit_s` without using CPU (blocked) ends the process the same way but is marked `blocked`,
+/// which the parent reports as inconclusive.
+#[cfg(not(miri))]
+pub fn start_watcher(cpu_limit_s: u64, wall_limit_s: u64) {
+    CPU_LIMIT_S.store(cpu_limit_s, Ordering::Relaxed);
+    if cpu_limit_s == 0 {
+        return;
+    }
+    std::thread::spawn(move || {
+        // (case index, cpu at first sight, wall at first sight) per slot
+        let mut seen: Vec<Option<(u64, u64, std::time::Instant)>> = vec![None; NSLOT];
+        loop {
+            std::thread::sleep(std::time::Duration::from_millis(2000));
+            for s in 0..NSLOT {
+                let idx = SLOT_IDX[s].load(Ordering::Relaxed);
+                if idx == IDLE {
+                    seen[s] = None;
+                    continue;
+                }
+                let tid = SLOT_TID[s].load(Ordering::Relaxed);
+                let Some(cpu) = thread_cpu_cs(tid) else {
+                    seen[s] = None;
+                    continue;
+                };
+                match seen[s] {
+                    Some((i0, c0, w0)) if i0 == idx => {
+                        let used = cpu.saturating_sub(c0);
+                        LONGEST_CS.fetch_max(used, Ordering::Relaxed);
+                        let wall = w0.elapsed().as_secs();
+                        let stuck = used / 100 >= cpu_limit_s;
+                        let blocked = wall >= wall_limit_s;
+                        if stuck || blocked {
+                            // the case may have ended in the meantime: look again
+                            if SLOT_IDX[s].load(Ordering::Relaxed) != idx {
+                                continue;
+                            }
+                            eprintln!(
+                                "\nLV-STUCK kind={} sub={} index={} cpu_s={} wall_s={}",
+                                if stuck { "cpu" } else { "blocked" },
+                                current_sub().replace(' ', "_"),
+                                idx,
+                                used / 100,
+                                wall
+                            );
+                            unsafe { libc::_exit(EXIT_STUCK) };
+                        }
+                    }
+                    _ => seen[s] = Some((idx, cpu, std::time::Instant::now())),
+                }
+            }
+        }
+    });
+}
+#[cfg(miri)]
+pub fn start_watcher(_cpu_limit_s: u64, _wall_limit_s: u64) {}
+
+/// One parsed `LV-STUCK` line: (kind, sub, index, cpu_s).
+pub fn parse_stuck_line(l: &str) -> Option<(String, String, u64, u64)> {
+    let rest = l.trim().strip_prefix("LV-STUCK ")?;
+    let mut kind = String::new();
+    let mut sub = String::new();
+    let mut idx = 0;
+    let mut cpu = 0;
+    for kv in rest.split(' ') {
+        let (k, v) = kv.split_once('=')?;
+        match k {
+            "kind" => kind = v.to_string(),
+            "sub" => sub = v.to_string(),
+            "index" => idx = v.parse().ok()?,
+            "cpu_s" => cpu = v.parse().ok()?,
+            _ => {}
+        }
+    }
+    Some((kind, sub, idx, cpu))
 }
 
 #[inline]
